@@ -32,20 +32,23 @@ Clauses == <<"CheckedLinesWereExecuted", "AssertionCheckedLinesWereExecuted",
              "Drift_Conforms", "Drift_Ran", "Drift_CheckedAreSliceLines", "Drift_TraceLines",
              "Drift_StrictSound", "Drift_Precise", "Drift_AssertionCoverage">>
 
-VARIABLES tid, l, ph
-vars == <<tid, l, ph>>
-Init == tid \in 1..Len(Traces) /\ l = 0 /\ ph = Len(Clauses)
+(* R: the oracle, i.e. the PyMiniData semantics evaluated on the program of the current event *)
+VARIABLES tid, l, ph, R
+vars == <<tid, l, ph, R>>
+Oracle(e) == LET r == Run(e.prog, e.a, e.b)
+             IN [flow |-> r.flow, retv |-> r.retv, lines |-> r.lines, slice |-> r.slice, strict |-> r.strict]
+Init == tid \in 1..Len(Traces) /\ l = 0 /\ ph = Len(Clauses) /\ R = [flow |-> "-"]
 Next == IF l > 0 /\ ph < Len(Clauses)
-        THEN ph' = ph + 1 /\ UNCHANGED <<tid, l>>
-        ELSE l < Len(Traces[tid].ev) /\ l' = l + 1 /\ ph' = 1 /\ UNCHANGED tid
+        THEN ph' = ph + 1 /\ UNCHANGED <<tid, l, R>>
+        ELSE /\ l < Len(Traces[tid].ev) /\ l' = l + 1 /\ ph' = 1 /\ UNCHANGED tid
+             /\ R' = Oracle(Traces[tid].ev[l + 1])
 Spec == Init /\ [][Next]_vars
 
 cur == Traces[tid].ev[l]
 At(name) == l > 0 /\ Clauses[ph] = name
 SetOf(q) == {q[i] : i \in DOMAIN q}
 
-(* ---- the oracle: PyMiniData semantics of the recorded program ---- *)
-R == Run(cur.prog, cur.a, cur.b)
+(* ---- the oracle's paths as source lines ---- *)
 LineOf(p) == LET m == {e \in SetOf(cur.lmap) : e.p = p} IN IF m = {} THEN 0 ELSE (CHOOSE e \in m : TRUE).n
 LinesOfPaths(S) == {LineOf(p) : p \in S}
 Body == SetOf(cur.body_lines)
@@ -67,9 +70,11 @@ AssertionSliceOnlyExecuted == At("AssertionSliceOnlyExecuted") => ModuleLines(cu
 CriterionInSlice == At("CriterionInSlice") => (cur.st_has_crit => cur.st_crit_in_slice)
 AssertionCriterionInSlice == At("AssertionCriterionInSlice") => (cur.as_n > 0 => cur.as_crit_in_slice)
 (* ---- every line the value depends on (data or control) is reported ---- *)
-Sound(r, reported) == (cur.gt_ok /\ Conforms(r)) => (LinesOfPaths(r.slice) \subseteq SetOf(reported))
-SliceSound == At("SliceSound") => Sound(R, cur.st_checked)
-AssertionSliceSound == At("AssertionSliceSound") => Sound(R, cur.as_checked)
+(* (an execution that hit the harness' time limit observed nothing: no verdict, reported by Drift_Ran) *)
+Sound(r, reported, timedout) ==
+  (cur.gt_ok /\ Conforms(r) /\ ~timedout) => (LinesOfPaths(r.slice) \subseteq SetOf(reported))
+SliceSound == At("SliceSound") => Sound(R, cur.st_checked, cur.st_timeout)
+AssertionSliceSound == At("AssertionSliceSound") => Sound(R, cur.as_checked, cur.as_timeout)
 
 (* ---- drift only: model vs code, precision ---- *)
 Drift_Conforms == At("Drift_Conforms") => Conforms(R)
